@@ -80,16 +80,21 @@ RHSpawn == /\ rh = "spawn" /\ rh' = "done" /\ loop' = "recv" /\ hc' = "before_se
 
 \* ---- a user calling Stop() the moment Started() is closed (nil stopFn => panic)
 UserStop == /\ AllowStop /\ user = "wait_started" /\ startedCh
-            /\ IF stopFnSet THEN ctxCancelled' = TRUE /\ srcClosed' = TRUE /\ userStopped' = TRUE /\ U(panicked)
-                            ELSE panicked' = TRUE /\ U(<<ctxCancelled, srcClosed, userStopped, hlMu, stoppedCh>>)
+            /\ IF stopFnSet THEN ctxCancelled' = TRUE /\ userStopped' = TRUE /\ U(<<panicked, srcClosed>>)
+                            ELSE panicked' = TRUE /\ U(<<ctxCancelled, srcClosed, userStopped>>)
             /\ user' = "done"
             /\ U(<<srcQ, pump, pumpMsg, loop, loopMsg, hm, runningWg, runningMu, handlersWg, hc, run, closing, closedCh, closed, closedMu, cl, clerr, w1, w2, tmo, subCloseCalled, pubClosed, rh, startedCh, stopFnSet, dropped, hlMu, stoppedCh>>)
 UserSkip == /\ user = "wait_started" /\ user' = "done"
             /\ U(<<srcQ, srcClosed, pump, pumpMsg, loop, loopMsg, hm, runningWg, runningMu, handlersWg, hc, run, ctxCancelled, closing, closedCh, closed, closedMu, cl, clerr, w1, w2, tmo, subCloseCalled, pubClosed, rh, startedCh, stopFnSet, userStopped, dropped, panicked, hlMu, stoppedCh>>)
 
 \* ---- the user cancels the context given to Run: every handler's subscription ends
-RunCtxCancel == /\ AllowCtxCancel /\ rh = "done" /\ ~ctxCancelled /\ ctxCancelled' = TRUE /\ srcClosed' = TRUE /\ userStopped' = TRUE
-                /\ U(<<srcQ, pump, pumpMsg, loop, loopMsg, hm, runningWg, runningMu, handlersWg, hc, run, closing, closedCh, closed, closedMu, cl, clerr, w1, w2, tmo, subCloseCalled, pubClosed, rh, startedCh, stopFnSet, user, dropped, panicked, hlMu, stoppedCh>>)
+RunCtxCancel == /\ AllowCtxCancel /\ rh = "done" /\ ~ctxCancelled /\ ctxCancelled' = TRUE /\ userStopped' = TRUE
+                /\ U(<<srcQ, srcClosed, pump, pumpMsg, loop, loopMsg, hm, runningWg, runningMu, handlersWg, hc, run, closing, closedCh, closed, closedMu, cl, clerr, w1, w2, tmo, subCloseCalled, pubClosed, rh, startedCh, stopFnSet, user, dropped, panicked, hlMu, stoppedCh>>)
+
+\* ---- the source notices that its subscription context has ended and closes its channel -- a step of its own: a message
+\*      it was already handing over can still be received after the context was cancelled
+SrcCloses == /\ ctxCancelled /\ ~srcClosed /\ srcClosed' = TRUE
+             /\ U(<<srcQ, pump, pumpMsg, loop, loopMsg, hm, runningWg, runningMu, handlersWg, hc, run, ctxCancelled, closing, closedCh, closed, closedMu, cl, clerr, w1, w2, tmo, subCloseCalled, pubClosed, rh, startedCh, stopFnSet, user, userStopped, dropped, panicked, hlMu, stoppedCh>>)
 
 \* ---- subscriber decorator pump: recv from the source; send to the loop, or give the message
 \*      up when the decorator is closing / the subscription context is done
@@ -130,8 +135,8 @@ HCWaitPump == /\ hc = "subclose" /\ pump = "done" /\ hc' = "done" /\ ctxCancelle
             /\ U(<<srcQ, srcClosed, pump, pumpMsg, loop, loopMsg, hm, runningWg, runningMu, handlersWg, run, closing, closedCh, closed, closedMu, cl, clerr, w1, w2, tmo, subCloseCalled, pubClosed, rh, startedCh, stopFnSet, user, userStopped, dropped, panicked, hlMu, stoppedCh>>)
 
 \* ---- Run: <-closingInProgressCh ; cancel() ; <-closedCh ; return nil
-RunCancel == /\ run = "wait_closing" /\ closing /\ run' = "wait_closed" /\ ctxCancelled' = TRUE /\ srcClosed' = TRUE
-             /\ U(<<srcQ, pump, pumpMsg, loop, loopMsg, hm, runningWg, runningMu, handlersWg, hc, closing, closedCh, closed, closedMu, cl, clerr, w1, w2, tmo, subCloseCalled, pubClosed, rh, startedCh, stopFnSet, user, userStopped, dropped, panicked, hlMu, stoppedCh>>)
+RunCancel == /\ run = "wait_closing" /\ closing /\ run' = "wait_closed" /\ ctxCancelled' = TRUE
+             /\ U(<<srcQ, srcClosed, pump, pumpMsg, loop, loopMsg, hm, runningWg, runningMu, handlersWg, hc, closing, closedCh, closed, closedMu, cl, clerr, w1, w2, tmo, subCloseCalled, pubClosed, rh, startedCh, stopFnSet, user, userStopped, dropped, panicked, hlMu, stoppedCh>>)
 RunReturn == /\ run = "wait_closed" /\ closedCh /\ run' = "returned"
              /\ U(<<srcQ, srcClosed, pump, pumpMsg, loop, loopMsg, hm, runningWg, runningMu, handlersWg, hc, ctxCancelled, closing, closedCh, closed, closedMu, cl, clerr, w1, w2, tmo, subCloseCalled, pubClosed, rh, startedCh, stopFnSet, user, userStopped, dropped, panicked, hlMu, stoppedCh>>)
 
@@ -168,7 +173,7 @@ ClReturnAgain(c) == /\ cl[c] = "rewait"
                     /\ cl' = [cl EXCEPT ![c] = "returned"] /\ closedMu' = None /\ hlMu' = None
                     /\ U(<<srcQ, srcClosed, pump, pumpMsg, loop, loopMsg, hm, runningWg, runningMu, handlersWg, hc, run, ctxCancelled, closing, closedCh, closed, w1, w2, tmo, subCloseCalled, pubClosed, rh, startedCh, stopFnSet, user, userStopped, dropped, panicked, stoppedCh>>)
 
-Next == RunCtxCancel \/ RHLock \/ RHSubscribe \/ RHAfterStarted \/ RHSpawn \/ UserStop \/ UserSkip \/ PumpRecv \/ PumpSend \/ PumpDrop \/ LoopAdd \/ LoopEnd \/ LoopUnreg
+Next == RunCtxCancel \/ SrcCloses \/ RHLock \/ RHSubscribe \/ RHAfterStarted \/ RHSpawn \/ UserStop \/ UserSkip \/ PumpRecv \/ PumpSend \/ PumpDrop \/ LoopAdd \/ LoopEnd \/ LoopUnreg
         \/ (\E m \in Msgs : HMStep(m)) \/ HCSelect \/ HCWaitPump \/ RunCancel \/ RunReturn
         \/ (\E c \in Closers : ClLock(c) \/ ClStart(c) \/ ClReturn(c) \/ ClReturnAgain(c)) \/ W1Done \/ W2Lock \/ W2Done \/ Timeout
 Spec == Init /\ [][Next]_vars
